@@ -5,6 +5,8 @@ import (
 	"encoding/json"
 	"encoding/xml"
 	"fmt"
+	"time"
+	_ "time/tzdata"
 
 	"go.lstv.dev/util/date"
 	"verif/mc"
@@ -18,7 +20,10 @@ type arg struct {
 	Basic  bool  `json:"basic"`
 	MaxLen int   `json:"max_input_length"`
 	Heavy  bool  `json:"heavy"` // also json/xml/containers
+	Zone   string `json:"time_local,omitempty"` // the process's local zone during the call ("" = unchanged)
 }
+
+var defaultLocal = time.Local
 
 type xmlAttr struct {
 	XMLName xml.Name  `xml:"x"`
@@ -36,12 +41,21 @@ type jsonBox struct {
 }
 
 func reset() {
+	time.Local = defaultLocal
 	date.MaxInputLength = 10
 	date.Formatter = date.DefaultFormatter
 	date.Parser = date.DefaultParser[[]byte]
 }
 
-func setup(a arg) { date.MaxInputLength = a.MaxLen }
+func setup(a arg) {
+	date.MaxInputLength = a.MaxLen
+	time.Local = defaultLocal
+	if a.Zone != "" {
+		if loc, err := time.LoadLocation(a.Zone); err == nil {
+			time.Local = loc
+		}
+	}
+}
 
 func probe(a arg) (string, string) {
 	d := date.New(int(a.Y), date.Month(a.M), a.D)
@@ -271,6 +285,24 @@ func main() {
 			r.Parallel(10000, 8, func(w *mc.W, y int64) { perYear(w, y, 10, heavyAll) })
 			r.Sample("date", arg{Y: 2024, M: 2, D: 29, Basic: true, MaxLen: 10, Heavy: true})
 		})
+		for _, z := range mc.Zones {
+			z := z
+			r.Phase(fmt.Sprintf("time.Local = %s: every day of 1880-2040, both formats, text paths", z), "complete for the listed years", func() {
+				setup(arg{MaxLen: 10, Zone: z})
+				r.Parallel(161, 1, func(w *mc.W, i int64) {
+					y := 1880 + i
+					for m := 1; m <= 12; m++ {
+						for d := 1; d <= oracle.DaysIn(y, m); d++ {
+							for _, basic := range []bool{false, true} {
+								w.Point()
+								p.Do(w, arg{Y: y, M: m, D: d, Basic: basic, MaxLen: 10, Zone: z})
+							}
+						}
+					}
+				})
+				reset()
+			})
+		}
 		// big years
 		var years []int64
 		for dg := 5; dg <= 9; dg++ {
